@@ -124,3 +124,94 @@ func c12BRun(c C12BCase, st *kit.Stats) error {
 func TestC12B(t *testing.T) {
 	kit.Check(t, kit.Prop[C12BCase]{ID: "C12B", Gen: c12BGen, Run: c12BRun})
 }
+
+// ---- part C: a wake-up that gives the client nothing must not extend its timeout ----------------------
+//
+// Two clients block with the same timeout t. One is left alone; the other is woken at a drawn fraction
+// of t by a push whose element is taken away atomically (MULTI; RPUSH; LPOP; EXEC by a third client).
+// Both must time out with nil; the disturbed one not noticeably later than the undisturbed one. The
+// comparison is relative (both suffer the same machine load) and is repeated: only three misses in a
+// row are a violation.
+
+type C12CCase struct {
+	Cmd       int `json:"cmd"`
+	TimeoutMs int `json:"timeout_ms"`
+	WakeAtPct int `json:"wake_at_pct"`
+	Wakes     int `json:"wakes"`
+}
+
+func c12CGen(t *rapid.T) C12CCase {
+	return C12CCase{Cmd: rapid.IntRange(0, 4).Draw(t, "cmd"), TimeoutMs: pick(t, "ms", 500, 700, 900), WakeAtPct: pick(t, "at", 40, 60, 75), Wakes: rapid.IntRange(1, 2).Draw(t, "wakes")}
+}
+
+func c12CRun(c C12CCase, st *kit.Stats) error {
+	margin := time.Duration(c.TimeoutMs) * time.Millisecond * 30 / 100
+	var lastErr error
+	for attempt := 0; attempt < 3; attempt++ {
+		emu := kit.StartEmu("")
+		quiet, disturbed, third := emu.Dial(), emu.Dial(), emu.Dial()
+		timeout := strconv.FormatFloat(float64(c.TimeoutMs)/1000, 'f', -1, 64)
+		qa := c12BCmd(C12BCase{Cmd: c.Cmd}, timeout)
+		da := append([]string(nil), qa...)
+		// the quiet client waits on other keys
+		for i, a := range qa {
+			if a == "q1" {
+				qa[i] = "p1"
+			} else if a == "q2" {
+				qa[i] = "p2"
+			}
+		}
+		t0 := time.Now()
+		quiet.Write(kit.EncodeCmd(qa...))
+		disturbed.Write(kit.EncodeCmd(da...))
+		type res struct {
+			v   kit.Value
+			err error
+			d   time.Duration
+		}
+		ch := make(chan res, 2)
+		go func() {
+			v, err := quiet.Read(time.Duration(c.TimeoutMs)*time.Millisecond + 5*time.Second)
+			ch <- res{v, err, time.Since(t0)}
+		}()
+		dch := make(chan res, 1)
+		go func() {
+			v, err := disturbed.Read(time.Duration(c.TimeoutMs)*time.Millisecond + 5*time.Second)
+			dch <- res{v, err, time.Since(t0)}
+		}()
+		for w := 0; w < c.Wakes; w++ {
+			at := time.Duration(c.TimeoutMs) * time.Millisecond * time.Duration(c.WakeAtPct) / 100
+			if w == 1 {
+				at += time.Duration(c.TimeoutMs) * time.Millisecond / 10
+			}
+			time.Sleep(time.Until(t0.Add(at)))
+			third.Do("MULTI")
+			third.Do("RPUSH", "q1", "gone")
+			third.Do("LPOP", "q1")
+			third.Do("EXEC")
+		}
+		q, d := <-ch, <-dch
+		emu.Stop()
+		if q.err != nil || d.err != nil {
+			return fmt.Errorf("blocking command did not complete: quiet %v, disturbed %v", q.err, d.err)
+		}
+		if q.v.K != kit.KNil || d.v.K != kit.KNil {
+			return fmt.Errorf("%v must time out with nil: quiet client got %s, disturbed client got %s", da, q.v, d.v)
+		}
+		if d.d < time.Duration(c.TimeoutMs)*time.Millisecond {
+			return fmt.Errorf("%v completed after %v, earlier than its timeout", da, d.d)
+		}
+		if d.d <= q.d+margin {
+			st.Class("woken-with-nothing-then-timed-out-on-time")
+			st.NonTrivial(fmt.Sprintf("%+v", c), map[string]any{"cmd": da, "wake_at_pct": c.WakeAtPct, "wakes": c.Wakes})
+			return nil
+		}
+		lastErr = fmt.Errorf("%v (timeout %d ms) was woken at %d%% of its timeout by a push whose element was gone; it then completed after %v while an undisturbed client with the same timeout completed after %v: the wake-up extended the timeout", da, c.TimeoutMs, c.WakeAtPct, d.d.Round(time.Millisecond), q.d.Round(time.Millisecond))
+		st.Class("late-attempt")
+	}
+	return lastErr
+}
+
+func TestC12C(t *testing.T) {
+	kit.Check(t, kit.Prop[C12CCase]{ID: "C12C", Gen: c12CGen, Run: c12CRun})
+}
